@@ -100,6 +100,7 @@ structure OSt where
   delPre : Option Obs := none    -- observation before the current delete
   lastDel : Option (Nat × Nat × Bool) := none -- (a, b, ok) of the last delete, checked at next observe
   nHandlers : Nat := 0
+  crashes : Nat := 0               -- crash images validated in this case
   modelDel : DelRes := .ok         -- the model's result of the last delete
   preRestart : Option Obs := none  -- synced observation right before a restart (C06 clean restart)
   sinceObs : Nat := 0              -- ops since the last observation
@@ -175,6 +176,28 @@ def checkAfterDelete (o : OSt) (pre post : Obs) (a b : Nat) (ok : Bool) (calls :
       some ("c14_removed_iff_handled", s!"gone={renderSet gone} calls={renderCalls calls}") else
     -- Tail and Head still resolve with Tail ≤ Head (checked by c04_ok on the same observation)
     none
+
+/-- C06 on a store reopened from a crash image: straight from the property text -/
+def c06_crash_ok (imgHdr : List Nat) (start : String) (o : Obs) (cont : String) : Option String :=
+  if start != "ok" then some "c06_start_ok" else
+  let res (h : Nat) : Bool := chr o.byh h == 'F' && chr o.get h == 'F'
+  if (match o.head with | some hd => !res hd | none => false) then some "c06_head_resolves" else
+  if (match o.tail with | some tl => !res tl | none => false) then some "c06_tail_resolves" else
+  if (match o.head, o.tail with
+      | some hd, some tl => !(List.range' tl (hd + 1 - tl)).all (fun h => chr o.byh h == 'F')
+      | _, _ => false) then some "c06_between_retrievable" else
+  if !imgHdr.all (fun h => chr o.get h == 'F') then some "c06_committed_retrievable" else
+  -- continuation "a,b>newHead"
+  match cont.splitOn ">" with
+  | [hs, nh] =>
+    match natList? hs, nh.toNat? with
+    | some l, some n => if l.getLast? == some n || (match l.getLast? with | some t => n ≥ t | none => true) then none else some "c06_continuation_advances_head"
+    | _, _ => some "c06_continuation_advances_head"   -- includes "…>none": Head still unset after the append
+  | _ => none
+
+/-- the model's reopened store for a raw image -/
+def reopenImage (batch : Nat) (hdr idx : List Nat) (hp tp : Option Nat) : St :=
+  ({ batch := batch, hdr := hdr, idx := idx, headPtr := hp, tailPtr := tp } : St).reopen
 
 def parseOp? (toks : List String) : Option Op :=
   match toks with
@@ -274,6 +297,45 @@ def storeLine (o : OSt) (line : String) : OSt :=
       -- an `ob res=…` after append/sync means the call failed
       o.flag (.prop "store_call_failed" line)
   | ["end"] => o
+  | "log" :: _ => o
+  | "faults" :: _ => o
+  | "crash" :: _ =>
+    match line.splitOn " => ", (line.splitOn " img: ") with
+    | [pre, post], [_, imgAndRest] =>
+      let imgToks := splitWs ((imgAndRest.splitOn " => ").headD "")
+      let postToks := splitWs post
+      match (kv? imgToks "hdr").bind natList?, (kv? imgToks "idx").bind natList?, (kv? imgToks "hp").bind optNat?,
+            (kv? imgToks "tp").bind optNat?, kv? postToks "start" with
+      | some hdr, some idx, some hp, some tp, some start =>
+        if start != "ok" then o.flag (.prop "c06_start_ok" pre) else
+        match Obs.parse? post, kv? postToks "cont" with
+        | some ob, some cont =>
+          match c06_crash_ok hdr start ob cont with
+          | some c => o.flag (.prop c (pre.take 200).toString)
+          | none =>
+            -- correspondence: the model's reopen on the same image
+            let m := reopenImage o.model.batch hdr idx hp tp
+            let mline := renderObs m o.n false
+            let iline := "ob " ++ ((post.splitOn " cont=").headD "" |>.splitOn "start=ok " |>.getD 1 "")
+            if mline != iline then
+              let diff := ((splitWs mline).zip (splitWs iline)).find? (fun (a, b) => a != b)
+              match diff with
+              | some (a, b) => o.flag (.corr "reopen" a b)
+              | none => o.flag (.corr "reopen" mline iline)
+            else
+              -- continuation on the model
+              match cont.splitOn ">" with
+              | [hs, nh] =>
+                match natList? hs with
+                | some l =>
+                  let m2 := (l.foldl (fun st h => st.step (.append [h])) m).step .sync
+                  if renderOpt m2.head == nh || (m2.head.isNone && nh == "none") then { o with crashes := o.crashes + 1 }
+                  else o.flag (.corr "continuation" (renderOpt m2.head) nh)
+                | none => o.flag (.bad "cont")
+              | _ => { o with crashes := o.crashes + 1 }
+        | _, _ => o.flag (.bad "crash obs")
+      | _, _, _, _, _ => o.flag (.bad "crash img")
+    | _, _ => o.flag (.bad "crash line")
   | _ => o.flag (.bad s!"line: {line}")
 
 end GoHeader.Oracle
